@@ -33,6 +33,7 @@ type pathState struct {
 	mu       sync.Mutex
 	fw       map[string]bool
 	failNext map[string]bool // the next IPv6Forwarding read for the interface fails (once)
+	pluginFail map[string]bool // the next address listing for the interface's wildcard plugin fails (once)
 }
 
 func (s *pathState) IPv6Autoconf(string) (bool, error) { return false, nil }
@@ -55,6 +56,28 @@ func (s *pathState) set(i string, b bool) {
 	s.mu.Lock()
 	s.fw[i] = b
 	s.mu.Unlock()
+}
+
+// failingPlugin stands for any plugin whose Apply can fail while an RA is being generated (the
+// wildcards, when their address or route source fails; Prepare would replace an injected source of
+// a real wildcard by the operating system's, so the harness brings its own plugin): it adds nothing
+// to the RA and fails once when told to (op P).
+type failingPlugin struct {
+	st   *pathState
+	name string
+}
+
+func (*failingPlugin) Name() string                 { return "verif-failing" }
+func (*failingPlugin) String() string               { return "verif-failing" }
+func (*failingPlugin) Prepare(*net.Interface) error { return nil }
+func (p *failingPlugin) Apply(*ndp.RouterAdvertisement) error {
+	p.st.mu.Lock()
+	defer p.st.mu.Unlock()
+	if p.st.pluginFail[p.name] {
+		p.st.pluginFail[p.name] = false
+		return errors.New("scripted: transient failure of a plugin's system source")
+	}
+	return nil
 }
 
 type syncBuf struct {
@@ -91,6 +114,7 @@ const (
 )
 
 type pathOp struct {
+	pfail bool // the next Apply of the interface's wildcard plugin fails (its address source fails once)
 	fail  bool // the next forwarding read of the interface fails
 	flip  bool
 	iface int
@@ -103,7 +127,7 @@ type pathOp struct {
 func runPaths(t *testing.T, out *vfh.Out, lifetimes [2]time.Duration, ops []pathOp) {
 	out.Pending(fmt.Sprintf("runPaths lifetimes=%v ops=%+v", lifetimes, ops))
 	synctest.Test(t, func(t *testing.T) {
-		st := &pathState{fw: map[string]bool{"vf0": true, "vf1": true}, failNext: map[string]bool{}}
+		st := &pathState{fw: map[string]bool{"vf0": true, "vf1": true}, failNext: map[string]bool{}, pluginFail: map[string]bool{}}
 		logs := &syncBuf{}
 		ll := log.New(logs, "", 0)
 		var ifis [2]*pathIface
@@ -112,6 +136,9 @@ func runPaths(t *testing.T, out *vfh.Out, lifetimes [2]time.Duration, ops []path
 			name := []string{"vf0", "vf1"}[k]
 			cfg := vfAdvConfig(4*time.Second, 4*time.Second, false, lifetimes[k])
 			cfg.Name = name
+			// a wildcard plugin whose address source can be made to fail once (op P): a plugin failure
+			// while an RA is being generated must not let an RA out that skips the forwarding rule
+			cfg.Plugins = append(cfg.Plugins, &failingPlugin{st: st, name: name})
 			cfgs = append(cfgs, cfg)
 			ifis[k] = &pathIface{name: name, cfg: cfg, watchC: make(chan netstate.Change, 8), done: make(chan error, 1)}
 		}
@@ -160,6 +187,13 @@ func runPaths(t *testing.T, out *vfh.Out, lifetimes [2]time.Duration, ops []path
 		}
 		for _, op := range ops {
 			pi := ifis[op.iface]
+			if op.pfail {
+				c.S("P").N(op.iface)
+				st.mu.Lock()
+				st.pluginFail[pi.name] = true
+				st.mu.Unlock()
+				continue
+			}
 			if op.fail {
 				c.S("X").N(op.iface)
 				st.fail(pi.name)
@@ -369,11 +403,23 @@ func verifC04Paths(t *testing.T, r *vfh.Rand, out *vfh.Out) {
 				{iface: 0, path: p}, {iface: 0, path: pAPI}, {iface: 1, path: pSolicited}})
 		}
 	}
+	// a plugin fails while an RA is being generated on a transmitting path, forwarding on or off: no
+	// RA may go out (in particular none that skipped the forwarding rule), the advertiser ends
+	for _, p := range []int{pPeriodic, pSolicited, pVerify, pInitial} {
+		for _, b := range []bool{false, true} {
+			runPaths(t, out, lts[1], []pathOp{{iface: 0, path: pSolicited}, {flip: true, iface: 0, b: b}, {pfail: true, iface: 0},
+				{iface: 0, path: p}, {iface: 0, path: pAPI}, {iface: 1, path: pSolicited}})
+		}
+	}
 	n := vfh.N(60, 2000)
 	for i := 0; i < n; i++ {
 		var ops []pathOp
 		for k := 2 + r.Intn(24); k > 0; k-- {
-			if r.Chance(1, 12) {
+			if r.Chance(1, 14) {
+				i := r.Intn(2)
+				ops = append(ops, pathOp{pfail: true, iface: i},
+					pathOp{iface: i, path: vfh.Pick(r, []int{pPeriodic, pSolicited, pVerify, pInitial})})
+			} else if r.Chance(1, 12) {
 				i := r.Intn(2)
 				ops = append(ops, pathOp{fail: true, iface: i},
 					pathOp{iface: i, path: vfh.Pick(r, []int{pPeriodic, pSolicited, pVerify, pScrape, pAPI, pInitial})})
